@@ -92,29 +92,31 @@ type ModLoc struct {
 }
 
 type FuncSpec struct {
-	Pkg        string // import path of the contract file's package ("" for extern)
-	Recv       string // receiver type text, e.g. "*dataRecord" or "" ; for extern: unused
-	RecvName   string
-	Name       string // function name (with $k for closures) ; for extern: full ssa name
-	Extern     bool
-	Params     []Param
-	Results    []Param
-	Requires   []Clause
-	Ensures    []Clause
-	Modifies   []ModLoc
-	ModAny     bool // modifies * : anything
-	Loops      map[int]*LoopSpec
-	Lets       []Param // name = expr source (macro)
-	LetExprs   map[string]Expr
-	Replay     string
-	ReplayKV   [][2]string
-	Trusted    bool
-	InlineOnly bool // carries loop invariants for a function that is only verified inlined into its caller
-	Pure       bool // (for extern) no heap effect at all
-	File       string
-	Line       int
-	Captures   []Param             // for closures: names bound to free variables, positional
-	CallPre    map[string][]Clause // extra assertions at every call of a named callee inside this unit
+	Pkg           string // import path of the contract file's package ("" for extern)
+	Recv          string // receiver type text, e.g. "*dataRecord" or "" ; for extern: unused
+	RecvName      string
+	Name          string // function name (with $k for closures) ; for extern: full ssa name
+	Extern        bool
+	Params        []Param
+	Results       []Param
+	Requires      []Clause
+	Ensures       []Clause
+	Modifies      []ModLoc
+	ModAny        bool // modifies * : anything
+	Loops         map[int]*LoopSpec
+	Lets          []Param // name = expr source (macro)
+	LetExprs      map[string]Expr
+	Replay        string
+	ReplayKV      [][2]string
+	Trusted       bool
+	InlineOnly    bool // carries loop invariants for a function that is only verified inlined into its caller
+	Pure          bool // (for extern) no heap effect at all
+	File          string
+	Line          int
+	InlineCallees []string             // callees executed by body in this unit
+	ExtraLoops    map[string]*LoopSpec // "callee.K" -> invariants added to loop K of an inlined callee
+	Captures      []Param              // for closures: names bound to free variables, positional
+	CallPre       map[string][]Clause  // extra assertions at every call of a named callee inside this unit
 }
 
 func (f *FuncSpec) Key() string {
@@ -668,7 +670,7 @@ func readSpecLines(path string) ([]string, []int, error) {
 var clauseKeywords = map[string]bool{
 	"pure": true, "ghost": true, "func": true, "extern": true, "requires": true, "ensures": true,
 	"modifies": true, "loop": true, "let": true, "replay": true, "trusted": true, "lemma": true,
-	"guarded": true, "captures": true, "noeffect": true, "hint": true, "abstract": true, "callpre": true, "inlined": true, "open": true,
+	"guarded": true, "captures": true, "noeffect": true, "hint": true, "abstract": true, "callpre": true, "inlined": true, "open": true, "inline": true,
 }
 
 // joinClauses merges continuation lines (lines whose first word is not a keyword).
@@ -860,6 +862,15 @@ func (db *SpecDB) LoadFile(path, pkg string) error {
 			if cur != nil {
 				cur.Pure = true
 			}
+		case "inline":
+			// inline NAME[, NAME]: in this unit, calls of the named repo functions are executed by their bodies
+			// (with their own loop contracts) instead of being replaced by their contracts
+			if cur == nil {
+				return fail(i, "inline outside func")
+			}
+			for _, p := range strings.Split(rest, ",") {
+				cur.InlineCallees = append(cur.InlineCallees, strings.TrimSpace(p))
+			}
 		case "captures":
 			if cur == nil {
 				return fail(i, "captures outside func")
@@ -873,6 +884,26 @@ func (db *SpecDB) LoadFile(path, pkg string) error {
 			}
 			var k int
 			ks, r2 := splitWord(rest)
+			if dot := strings.LastIndex(ks, "."); dot > 0 {
+				// loop CALLEE.K invariant label: e  -- an extra invariant for loop K of an inlined callee
+				w3, r3 := splitWord(r2)
+				if w3 != "invariant" {
+					return fail(i, "only invariants can be added to the loops of an inlined callee")
+				}
+				label, src := splitLabel(r3)
+				e, err := ParseExpr(src)
+				if err != nil {
+					return fail(i, "%v", err)
+				}
+				if cur.ExtraLoops == nil {
+					cur.ExtraLoops = map[string]*LoopSpec{}
+				}
+				if cur.ExtraLoops[ks] == nil {
+					cur.ExtraLoops[ks] = &LoopSpec{}
+				}
+				cur.ExtraLoops[ks].Invariants = append(cur.ExtraLoops[ks].Invariants, Clause{label, e, src})
+				break
+			}
 			if _, err := fmt.Sscanf(ks, "%d", &k); err != nil {
 				return fail(i, "loop needs ordinal")
 			}
